@@ -433,6 +433,12 @@ lzma_index_prealloc(lzma_index *i, lzma_vli records)
 	if (records > PREALLOC_MAX)
 		records = PREALLOC_MAX;
 
+	// With zero Records the default must be kept. Otherwise a later
+	// lzma_index_append() on a decoded empty Index would allocate
+	// a group with no space for the Record it is about to add.
+	if (records == 0)
+		return;
+
 	i->prealloc = (size_t)(records);
 	return;
 }
